@@ -21,7 +21,7 @@ echo "suite-with-change non-flaky failures: [$suite]"
 cp $demo/*.go $pkg/ 2>/dev/null
 with=$(go test -vet=off -count=1 -run "$run" "$@" ./$pkg/ 2>&1 | tail -30)
 echo "$with" | grep -qE "^(FAIL|--- FAIL|panic|fatal)" && wf=1 || wf=0
-git stash -q -- $(git diff --name-only) 2>/dev/null || git checkout -q -- .
+git checkout -q -- .
 without=$(go test -vet=off -count=1 -run "$run" "$@" ./$pkg/ 2>&1 | tail -8)
 echo "$without" | grep -qE "^ok" && wo=1 || wo=0
 echo "demo with change fails: $wf ; demo without change passes: $wo"
